@@ -38,6 +38,11 @@ type RunStats struct {
 	Samples     []string       `json:"samples"`
 	Hangs       int            `json:"hangs"`
 	Sets        map[string]int `json:"sets"`
+
+	cases []string // kept for property post-processing, not serialised
+	impl  []string
+	model []string
+	setOf []string
 }
 
 func selfExe() string {
@@ -179,6 +184,9 @@ func correspond(sets []CaseSet) *RunStats {
 	for _, s := range sets {
 		st.Sets[s.Name] += len(s.Cases)
 		all = append(all, s.Cases...)
+		for range s.Cases {
+			st.setOf = append(st.setOf, s.Name)
+		}
 		for i := 0; i < len(s.Cases) && i < 2 && len(st.Samples) < 40; i++ {
 			c := s.Cases[i]
 			if len(c) > 400 {
@@ -238,6 +246,7 @@ func correspond(sets []CaseSet) *RunStats {
 		}(parts[s])
 	}
 	wg.Wait()
+	st.cases, st.impl, st.model = all, impl, model
 	sigs := map[string]bool{}
 	for i := 0; i < n; i++ {
 		st.Outcomes[outcomeKey(impl[i])]++
